@@ -11,6 +11,7 @@ import AlgopyVerif.Model.Pullback
 import AlgopyVerif.Model.Tracer
 import AlgopyVerif.Model.Index
 import AlgopyVerif.Model.Drivers
+import AlgopyVerif.Model.Linalg
 import Lean.Data.Json
 /-!
 # Request dispatch of the model driver (JSON codec + operation table)
@@ -264,6 +265,67 @@ def handleK (j : Json) : Except String Json := do
     | "broadcast" =>
       let sh ← j.getObjValAs? (Array Nat) "shape"
       pure (okArrs [x.broadcastTo sh.toList])
+    | _ => throw s!"bad-what {what}"
+  | "mat" =>
+    -- matrix Taylor kernels; arrays (D,P,n,m); leaves (P,n,m) arrays (zeroth-order inverses etc.)
+    let what ← j.getObjValAs? String "what"
+    let x : NdArray K ← getArr j "x"
+    let D := utD x
+    let P := utP x
+    let matOf (a : NdArray K) (pre : List Nat) : Mat K :=
+      let n := a.shape.getD pre.length 0
+      let m := a.shape.getD (pre.length + 1) 1
+      if a.shape.length = pre.length + 1 then Mat.ofFn n 1 fun i _ => a.get (pre ++ [i])
+      else Mat.ofFn n m fun i jj => a.get (pre ++ [i, jj])
+    let series (a : NdArray K) (p : Nat) : List (Mat K) := (List.range (utD a)).map fun d => matOf a [d, p]
+    let assemble (res : List (List (Mat K))) (vec : Bool) : NdArray K :=
+      -- res[p][d] matrices of equal shape
+      let m0 := ((res.getD 0 []).getD 0 ⟨[]⟩)
+      let n := m0.nrows
+      let m := m0.ncols
+      if vec then ofFn [D, P, n] fun i => match i with
+        | [d, p, a] => ((res.getD p []).getD d ⟨[]⟩).get a 0
+        | _ => 0
+      else ofFn [D, P, n, m] fun i => match i with
+        | [d, p, a, b] => ((res.getD p []).getD d ⟨[]⟩).get a b
+        | _ => 0
+    match what with
+    | "dot" =>
+      let y : NdArray K ← getArr j "y"
+      let xk ← j.getObjValAs? String "xk"   -- "u" UTPM, "a" constant
+      let yk ← j.getObjValAs? String "yk"
+      let xs (p : Nat) : List (Mat K) := if xk = "u" then series x p else
+        (List.range D).map fun d => if d = 0 then matOf x [] else ⟨[]⟩
+      let ys (p : Nat) : List (Mat K) := if yk = "u" then series y p else
+        (List.range D).map fun d => if d = 0 then matOf y [] else ⟨[]⟩
+      let P' := if xk = "u" then P else utP y
+      let D' := if xk = "u" then D else utD y
+      let res := (List.range P').map fun p =>
+        let xl := if xk = "u" then series x p else (List.range D').map fun d => if d = 0 then matOf x [] else ⟨[]⟩
+        let yl := if yk = "u" then series y p else (List.range D').map fun d => if d = 0 then matOf y [] else ⟨[]⟩
+        dotM xl yl
+      let m0 := ((res.getD 0 []).getD 0 ⟨[]⟩)
+      pure (okArrs [ofFn [D', P', m0.nrows, m0.ncols] fun i => match i with
+        | [d, p, a, b] => ((res.getD p []).getD d ⟨[]⟩).get a b
+        | _ => 0])
+    | "inv" =>
+      let l0 : NdArray K ← getArr j "l0"        -- numpy.linalg.inv(x[0,p])
+      pure (okArrs [assemble ((List.range P).map fun p => invM (series x p) (matOf l0 [p])) false])
+    | "solve" =>
+      let b : NdArray K ← getArr j "y"
+      let l0 : NdArray K ← getArr j "l0"        -- inverse of A_0 per direction
+      let kind ← j.getObjValAs? String "kind"   -- "uu", "au" (constant A), "ua" (constant b)
+      match kind with
+      | "uu" => pure (okArrs [assemble ((List.range P).map fun p => solveM (series x p) (matOf l0 [p]) (series b p)) false])
+      | "au" =>
+        let Pb := utP b
+        let Db := utD b
+        let res := (List.range Pb).map fun p => solveConstAM (matOf l0 [0]) (series b p)
+        let m0 := ((res.getD 0 []).getD 0 ⟨[]⟩)
+        pure (okArrs [ofFn [Db, Pb, m0.nrows, m0.ncols] fun i => match i with
+          | [d, p, a, c] => ((res.getD p []).getD d ⟨[]⟩).get a c
+          | _ => 0])
+      | _ => pure (okArrs [assemble ((List.range P).map fun p => solveConstBM (series x p) (matOf l0 [p]) (matOf b [])) false])
     | _ => throw s!"bad-what {what}"
   | "conv" =>
     let what ← j.getObjValAs? String "what"
